@@ -1,5 +1,10 @@
 import NbdimeModel
 import NbdimeProofs.Lemmas.MergeLaws
+import NbdimeProofs.Lemmas.ApplyOneSided
+import NbdimeProofs.Lemmas.NbWf
+import NbdimeProofs.Properties.C01
+import NbdimeProofs.Properties.C02
+import NbdimeProofs.Properties.C11
 import NbdimeProofs.Lemmas.Resolve
 /-
   C05 / C10 — laws of the decision applier (NbdimeModel/Apply.lean) that the merge laws rest on:
@@ -145,6 +150,42 @@ theorem C05_model_agreement {E : Env} {base : J} {d : List Op} {ds : List MD} (h
     (h : decideMerge E base d d = .ok ds) : ∀ x ∈ ds, x.action = "either" ∧ x.conflict = false :=
   decideMerge_agreement hc h
 
+open Merge in
+/-- **one-sided adoption at document level** (model of `merge(base, X, base) = X` for any root object): if `ld` is a
+    well-formed mapping diff that patches `base` into `X`, the decisions recorded for "local changed by `ld`, remote
+    unchanged", applied to `base`, give exactly `X` — every strategy table, every oracle. -/
+theorem C05_model_onesided_apply (E : Env) (base : List (String × J)) (ld : List Op) (ds : List MD) (X : J)
+    (hc : (J.obj base).canonical = true) (hwf : wf (.obj base) ld = true)
+    (hX : patch (.obj base) ld = .ok X) (h : decideMerge E (.obj base) ld [] = .ok ds) :
+    applyDecisions (.obj base) (ds.map MD.toDecision) = .ok X := by
+  rw [wf] at hwf
+  obtain ⟨h1, h2, _⟩ := wfObj_shape base ld [] hwf
+  exact apply_onesided_obj E base ld ds X hc h1 h2 hX h
+
+open Merge in
+/-- end to end for generic JSON objects: diff (model of `nbdime.diff`), decide (model of `decide_merge_with_diff` with
+    the remote side unchanged), apply (model of `apply_decisions`): the result is the local document. Uses the
+    round trip (C02) and well-formedness (C11) theorems of the differ. -/
+theorem C05_generic_onesided_adoption (E : Env) (O : Oracle) (hO : OracleOK O) (base : List (String × J)) (x : J)
+    (ld : List Op) (ds : List MD) (ca : (J.obj base).canonical = true) (cx : x.canonical = true)
+    (hab : Compat (.obj base) x) (hd : diffGeneric O (.obj base) x = .ok ld)
+    (h : decideMerge E (.obj base) ld [] = .ok ds) :
+    applyDecisions (.obj base) (ds.map MD.toDecision) = .ok x :=
+  C05_model_onesided_apply E base ld ds x ca (C11_generic_wf O hO _ x ld ca cx hab hd)
+    (C02_roundtrip_partial O hO _ x ld ca cx hab hd) h
+
+open Merge in
+/-- end to end for notebooks: `diff_notebooks` under any sound table configuration, then the merge with an unchanged
+    remote side under ANY strategy table (`notebook_merge_strategies` for any options), then `apply_decisions`:
+    the merged notebook is the local notebook. -/
+theorem C05_notebook_onesided_adoption (E : Env) (O : Oracle) (hO : OracleOK O) (cfg : Cfg) (hcfg : cfgSoundB cfg = true)
+    (base : List (String × J)) (x : J) (ld : List Op) (ds : List MD)
+    (ca : (J.obj base).canonical = true) (cx : x.canonical = true) (hab : Compat (.obj base) x)
+    (hd : diffNotebooks O cfg (.obj base) x = .ok ld) (h : decideMerge E (.obj base) ld [] = .ok ds) :
+    applyDecisions (.obj base) (ds.map MD.toDecision) = .ok x :=
+  C05_model_onesided_apply E base ld ds x ca (C11_notebook_wf O hO cfg hcfg _ x ld ca cx hab hd)
+    (C01_roundtrip_partial O hO cfg hcfg _ x ld ca cx hab hd) h
+
 namespace C05ex
 open Merge
 def exE : Env := { O := { cmp := fun _ _ _ => .ok false, opcodes := fun _ _ => .ok [] }, cfg := defaultCfg,
@@ -159,6 +200,11 @@ def showDs (r : Except Err (List MD)) : List (String × Bool × Nat) :=
 example : showDs (decideMerge exE exBase exLd []) = [("local", false, 1), ("local", false, 0)] := by decide +kernel
 example : showDs (decideMerge exE exBase exLd exLd) = [("either", false, 1), ("either", false, 0)] := by decide +kernel
 example : showDs (decideMerge exE exBase [] exLd) = [("remote", false, 1), ("remote", false, 0)] := by decide +kernel
+/-- non-vacuity of the end-to-end theorem: for the nested example pair of C02 the differ returns a diff and the merger
+    returns decisions for it (the remaining hypotheses — canonical, compatible, oracle contract — are those of C02) -/
+example : (match diffGeneric exOracle exA exB with
+           | .ok ld => (decideMerge exE exA ld []).toBool
+           | .error _ => false) = true := by decide +kernel
 end C05ex
 
 end Nbdime
